@@ -828,6 +828,7 @@ OPS.update({
     'sum0': ('sum', 'val', 0, '', '(({S}_Sum_sum []) : {TY})'), 'product0': ('product', 'val', 0, '', '(({S}_Product_product []) : {TY})'),
     'from_i32': ('from_i32', 'optval', 0, 'n', '(({S}_FromPrimitive_from_i32 n) : option {TY})'),
     'from_inner_F': ('from_inner_F', 'val', 0, 'q', '(({S}_from_inner (ofF q)) : {TY})'),
+    'from_prim': ('from_prim', 'optval', 0, 'nn', None),          # implementation only (no model template)
 })
 for _m in ('bessel_j0', 'bessel_j1', 'bessel_j2'):
     OPS[_m] = ('bessel:' + _m, 'val', 1, '', '(%s a)' % _m)
